@@ -36,7 +36,20 @@ func families(tier string) []*goprog.Family {
 }
 
 func allFamilies(tier string) []*goprog.Family {
-	return append(f10TransferFamilies(), baseFamilies(tier)...)
+	return append(append(f10TransferFamilies(), baseFamilies(tier)...), lateFamilies()...)
+}
+
+// lateFamilies are the families added after the others were recorded: their
+// spaces come last (after F5.top), so that the earlier spaces keep their place.
+func lateFamilies() []*goprog.Family {
+	return []*goprog.Family{
+		f11DeepDefer(),
+		f12ConstFamily(),
+	}
+}
+
+func isLate(f *goprog.Family) bool {
+	return strings.HasPrefix(f.Name, "F11.") || strings.HasPrefix(f.Name, "F12.")
 }
 
 func baseFamilies(tier string) []*goprog.Family {
@@ -67,11 +80,19 @@ func withTop() bool {
 
 func spaces(tier string) []kit.Space {
 	var sps []kit.Space
-	for _, f := range families(tier) {
-		sps = append(sps, f.Space())
+	fams := families(tier)
+	for _, f := range fams {
+		if !isLate(f) {
+			sps = append(sps, f.Space())
+		}
 	}
 	if withTop() {
 		sps = append(sps, f5TopSpace())
+	}
+	for _, f := range fams {
+		if isLate(f) {
+			sps = append(sps, f.Space())
+		}
 	}
 	return sps
 }
